@@ -18,3 +18,16 @@ void __vrt_native_checkfail(const char *msg);
 #else
 #define VRT_CHECK(c, m) do { if (!(c)) __vrt_native_checkfail(m); } while (0)
 #endif
+/* a check after which the path cannot sensibly continue (null dereference): assert, then stop exploring / exit */
+#ifdef __CPROVER__
+/* cutting the path (assume) makes every later guard carry the condition: 28 GB instead of 4 GB on the Logger harness; so it is
+   off by default and the driver retries a query with -DVRT_STOP only when exploring behind a null dereference exhausted memory */
+#ifdef VRT_STOP
+#define VRT_CHECK_STOP(c, m) do { __CPROVER_assert((c), m); __CPROVER_assume(c); } while (0)
+#else
+#define VRT_CHECK_STOP(c, m) __CPROVER_assert((c), m)
+#endif
+#else
+void __vrt_native_stop(const char *msg);
+#define VRT_CHECK_STOP(c, m) do { if (!(c)) __vrt_native_stop(m); } while (0)
+#endif
